@@ -118,3 +118,38 @@ package store
 //@   modifies ghost.chn, ghost.chid, ghost.chb, ghost.cha
 //@   ensures chn == old(chn) + 1 && same(chid, id) && same(chb, before) && same(cha, after)
 //@ pred isErr(err error, e *res.Error) = typeIs(err, "*res.Error") && ptrOf(err, "*res.Error") == e
+//@
+//@ # ================================================================ query handler: who is told about a query change (C14)
+//@ props C14
+//@ # revn: resources examined by resourceEvent; qevn/qrst: events / resets announced on them (assumed contracts of res.Resource)
+//@ ghostvar revn int
+//@ func callback.rhCB(self ref, rname string, pathParams map[string]string) (q url.Values, err error)
+//@   modifies alloc
+//@ func callback.arCB(self ref, p res.Pattern, qc QueryChange) (rids []string)
+//@   modifies alloc
+//@ func (o *queryHandler) errorf(format string, v []interface{})
+//@   requires o != nil && o.s != nil
+//@ func (o *queryHandler) resourceEvent(rid string, qc QueryChange) (rerr error)
+//@   requires o != nil && o.s != nil && o.s.Mux != nil && !isNil(qc)
+//@   modifies ghost.qevn, ghost.qrst, ghost.revn, alloc, res.Match.Handler, res.Match.Listeners, res.Match.Params, res.Match.Group, res.resource.rname, res.resource.pathParams, res.resource.query, res.resource.group, res.resource.h, res.resource.listeners, res.resource.s
+//@   callback rh rhCB
+//@   callsite Resource.AddEvent#1 builtin.qhAdd
+//@   callsite Resource.RemoveEvent#1 builtin.qhRemove
+//@   callsite Resource.ChangeEvent#1 builtin.qhChange
+//@   ghost entry :: set revn = revn + 1
+//@   # a change that the query store reports as a reset resets the resource and announces nothing else;
+//@   # otherwise exactly the (transformed) result events are announced, in order
+//@   ghost exit :: assert reset.only: imp(isNil(rerr) && reset, qrst == old(qrst) + 1 && qevn == old(qevn))
+//@   ghost exit :: assert events: imp(isNil(rerr) && !reset, qrst == old(qrst) && qevn == old(qevn) + len(evs))
+//@   ensures counted: revn == old(revn) + 1
+//@   ensures failed: imp(!isNil(rerr), qrst == old(qrst))
+//@   loop 1 invariant -1 <= rangeindex && rangeindex < len(evs) + 0 && qevn == old(qevn) + rangeindex + 1 && qrst == old(qrst) && !reset && !isNil(r)
+//@ func (o *queryHandler) changeHandler(qc QueryChange)
+//@   requires o != nil && o.s != nil && o.s.Mux != nil && !isNil(qc)
+//@   modifies ghost.qevn, ghost.qrst, ghost.revn, alloc, res.Match.Handler, res.Match.Listeners, res.Match.Params, res.Match.Group, res.resource.rname, res.resource.pathParams, res.resource.query, res.resource.group, res.resource.h, res.resource.listeners, res.resource.s
+//@   callback ar arCB
+//@   # without an AffectedResources callback the handler's own pattern is the one resource examined
+//@   ensures plain: imp(old(o.ar == nil), revn == old(revn) + 1)
+//@   # with it every listed resource is examined once, in order, up to the first failure
+//@   ghost exit :: assert listed: imp(old(o.ar != nil), old(revn) <= revn && revn <= old(revn) + len(rids))
+//@   loop 1 invariant -1 <= rangeindex && rangeindex < len(rids) + 0 && revn == old(revn) + rangeindex + 1 && o != nil && o.s != nil && o.s.Mux != nil
